@@ -86,12 +86,81 @@ func (a *Act) rootsOf(li *loopInfo, v ssa.Value, visited map[ssa.Value]bool) (ro
 		return a.rootsOf(li, x.X, visited)
 	case *ssa.FieldAddr:
 		return a.rootsOf(li, x.X, visited)
+	case *ssa.UnOp:
+		// load of an "accumulator field": a slice-typed field of a loop-invariant object whose only
+		// stores inside the loop write values derived from itself (x.f = append(x.f, ...))
+		fa, ok := x.X.(*ssa.FieldAddr)
+		if !ok || li.modSt == nil {
+			return nil, false
+		}
+		base, ok := a.invariantAddr(li, fa.X)
+		if !ok {
+			return nil, false
+		}
+		stT := derefType(fa.X.Type())
+		ft := derefType(fa.Type())
+		if a.u.D.SortOf(ft) != "Slice" {
+			return nil, false
+		}
+		h, hs := a.u.D.FieldHeap(stT, fa.Field)
+		out := []Term{app("rid", app("sarr", sel(li.modSt.heap(h, hs), base)))}
+		for b := range li.blocks {
+			for _, ins := range b.Instrs {
+				sto, ok := ins.(*ssa.Store)
+				if !ok {
+					continue
+				}
+				sfa, ok := sto.Addr.(*ssa.FieldAddr)
+				if !ok {
+					continue
+				}
+				if sfa.Field != fa.Field || !types.Identical(derefType(sfa.X.Type()), stT) {
+					continue
+				}
+				sbase, ok := a.invariantAddr(li, sfa.X)
+				if !ok || sbase != base {
+					// a store to the same field of a possibly different object: fresh objects cannot alias
+					if al, isAlloc := sfa.X.(*ssa.Alloc); isAlloc && inLoop(li, al) {
+						continue
+					}
+					return nil, false
+				}
+				r, ok := a.rootsOf(li, sto.Val, visited)
+				if !ok {
+					return nil, false
+				}
+				out = append(out, r...)
+			}
+		}
+		return out, true
 	}
 	return nil, false
 }
 
 // addrMods records the effect of a store through addr of a value of type t.
 func (a *Act) addrMods(li *loopInfo, m *modSet, addr ssa.Value, t types.Type) {
+	// a location inside a slice / array element: the element heap, by root
+	for cur := addr; cur != nil; {
+		switch x := cur.(type) {
+		case *ssa.FieldAddr:
+			cur = x.X
+			continue
+		case *ssa.IndexAddr:
+			if et := indexElemType(x.X.Type()); et != nil {
+				roots, rok := a.rootsOf(li, x.X, map[ssa.Value]bool{})
+				for _, lh := range a.elemHeaps(et) {
+					hm := m.heap(lh.name, lh.sort)
+					if rok {
+						hm.roots = append(hm.roots, roots...)
+					} else {
+						hm.unknown = true
+					}
+				}
+				return
+			}
+		}
+		break
+	}
 	// local?
 	base := addr
 	for {
@@ -151,7 +220,8 @@ func (a *Act) isLocalVar(al *ssa.Alloc) bool {
 	return !al.Heap && !isArrayType(t)
 }
 
-func (a *Act) loopMods(li *loopInfo) *modSet {
+func (a *Act) loopMods(li *loopInfo, st *State) *modSet {
+	li.modSt = st
 	m := &modSet{heaps: map[string]*heapMod{}, locals: map[*ssa.Alloc]bool{}, ranges: map[ssa.Value]bool{}}
 	var blocks []*ssa.BasicBlock
 	for b := range li.blocks {
@@ -167,7 +237,34 @@ func (a *Act) loopMods(li *loopInfo) *modSet {
 }
 
 // instrMods accumulates the possible effects of one instruction (of the loop body, or of an inlined callee).
+// resolveBase walks an address expression of an inlined callee down to the value it is rooted in,
+// substituting callee parameters by the caller's arguments.
+func resolveBase(v ssa.Value, subst map[ssa.Value]ssa.Value) ssa.Value {
+	for i := 0; i < 64; i++ {
+		switch x := v.(type) {
+		case *ssa.FieldAddr:
+			v = x.X
+			continue
+		case *ssa.IndexAddr:
+			v = x.X
+			continue
+		case *ssa.Parameter:
+			if w, ok := subst[x]; ok {
+				v = w
+				continue
+			}
+			return nil
+		}
+		return v
+	}
+	return nil
+}
+
 func (a *Act) instrMods(li *loopInfo, m *modSet, ins ssa.Instruction, depth int, stack []*ssa.Function) {
+	a.instrModsS(li, m, ins, depth, stack, nil)
+}
+
+func (a *Act) instrModsS(li *loopInfo, m *modSet, ins ssa.Instruction, depth int, stack []*ssa.Function, subst map[ssa.Value]ssa.Value) {
 	d := a.u.D
 	fresh := func(t types.Type) {
 		for _, lh := range a.leafHeaps(t) {
@@ -177,9 +274,27 @@ func (a *Act) instrMods(li *loopInfo, m *modSet, ins ssa.Instruction, depth int,
 	switch x := ins.(type) {
 	case *ssa.Store:
 		if depth > 0 {
-			// store inside an inlined callee: conservative
+			// store inside an inlined callee: by the root of the address, seen from the caller
+			base := resolveBase(x.Addr, subst)
+			var roots []Term
+			rok := false
+			if base != nil && li != nil {
+				if al, isAlloc := base.(*ssa.Alloc); isAlloc && al.Parent() != a.fn {
+					rok = true // object allocated by the callee: fresh
+				} else if al, isAlloc := base.(*ssa.Alloc); isAlloc && !al.Heap && a.isLocalVar(al) && al.Parent() == a.fn {
+					m.locals[al] = true
+					return
+				} else {
+					roots, rok = a.rootsOf(li, base, map[ssa.Value]bool{})
+				}
+			}
 			for _, lh := range a.storeHeaps(x.Addr, x.Val.Type()) {
-				m.heap(lh.name, lh.sort).unknown = true
+				hm := m.heap(lh.name, lh.sort)
+				if rok {
+					hm.roots = append(hm.roots, roots...)
+				} else {
+					hm.unknown = true
+				}
 			}
 			return
 		}
@@ -191,7 +306,9 @@ func (a *Act) instrMods(li *loopInfo, m *modSet, ins ssa.Instruction, depth int,
 			m.locals[x] = true
 		}
 	case *ssa.MakeSlice:
-		fresh(x.Type().Underlying().(*types.Slice).Elem())
+		for _, lh := range a.elemHeaps(x.Type().Underlying().(*types.Slice).Elem()) {
+			m.heap(lh.name, lh.sort)
+		}
 	case *ssa.MakeInterface:
 		if d.SortOf(x.X.Type()) != "Ref" {
 			fresh(x.X.Type())
@@ -215,11 +332,35 @@ func (a *Act) instrMods(li *loopInfo, m *modSet, ins ssa.Instruction, depth int,
 	case *ssa.Defer, *ssa.Go, *ssa.Send, *ssa.Select:
 		m.all = true
 	case ssa.CallInstruction:
-		a.callMods(li, m, x, depth, stack)
+		a.callMods(li, m, x, depth, stack, subst)
 	}
 }
 
+func indexElemType(t types.Type) types.Type {
+	switch u := types.Unalias(t).Underlying().(type) {
+	case *types.Slice:
+		return u.Elem()
+	case *types.Pointer:
+		if arr, ok := u.Elem().Underlying().(*types.Array); ok {
+			return arr.Elem()
+		}
+	}
+	return nil
+}
+
 func (a *Act) storeHeaps(addr ssa.Value, t types.Type) []leafHeap {
+	for cur := addr; cur != nil; {
+		switch x := cur.(type) {
+		case *ssa.FieldAddr:
+			cur = x.X
+			continue
+		case *ssa.IndexAddr:
+			if et := indexElemType(x.X.Type()); et != nil {
+				return a.elemHeaps(et)
+			}
+		}
+		break
+	}
 	if fa, ok := addr.(*ssa.FieldAddr); ok && !isStructType(t) && !isArrayType(t) {
 		st := derefType(fa.X.Type())
 		h, hs := a.u.D.FieldHeap(st, fa.Field)
@@ -244,7 +385,7 @@ func (a *Act) mapMods(li *loopInfo, m *modSet, mv ssa.Value, mt *types.Map, dept
 	hv.unknown = true
 }
 
-func (a *Act) callMods(li *loopInfo, m *modSet, c ssa.CallInstruction, depth int, stack []*ssa.Function) {
+func (a *Act) callMods(li *loopInfo, m *modSet, c ssa.CallInstruction, depth int, stack []*ssa.Function, outer map[ssa.Value]ssa.Value) {
 	com := c.Common()
 	if b, ok := com.Value.(*ssa.Builtin); ok {
 		switch b.Name() {
@@ -255,7 +396,7 @@ func (a *Act) callMods(li *loopInfo, m *modSet, c ssa.CallInstruction, depth int
 			if depth == 0 && li != nil {
 				roots, rok = a.rootsOf(li, com.Args[0], map[ssa.Value]bool{})
 			}
-			for _, lh := range a.leafHeaps(et) {
+			for _, lh := range a.elemHeaps(et) {
 				hm := m.heap(lh.name, lh.sort)
 				if rok {
 					hm.roots = append(hm.roots, roots...)
@@ -265,7 +406,7 @@ func (a *Act) callMods(li *loopInfo, m *modSet, c ssa.CallInstruction, depth int
 			}
 		case "copy":
 			if sl, ok := com.Args[0].Type().Underlying().(*types.Slice); ok {
-				for _, lh := range a.leafHeaps(sl.Elem()) {
+				for _, lh := range a.elemHeaps(sl.Elem()) {
 					m.heap(lh.name, lh.sort).unknown = true
 				}
 			}
@@ -282,6 +423,9 @@ func (a *Act) callMods(li *loopInfo, m *modSet, c ssa.CallInstruction, depth int
 		if a.isPureFnValue(com.Value) || com.IsInvoke() && a.invokeIsPure(com) {
 			return
 		}
+		if _, ok := a.assumedCallback(com.Value); ok {
+			return
+		}
 		m.all = true
 		return
 	}
@@ -296,9 +440,30 @@ func (a *Act) callMods(li *loopInfo, m *modSet, c ssa.CallInstruction, depth int
 		return
 	}
 	if a.canInline(callee, stack) && depth < 6 {
+		subst := map[ssa.Value]ssa.Value{}
+		for i, p := range callee.Params {
+			if i < len(com.Args) {
+				arg := com.Args[i]
+				// arguments that are themselves parameters of an enclosing inlined callee
+				if pp, ok := arg.(*ssa.Parameter); ok && outer != nil {
+					if w, ok := outer[pp]; ok {
+						arg = w
+					}
+				}
+				subst[p] = arg
+			}
+		}
+		if outer != nil {
+			// address expressions of the enclosing callee may appear as arguments: keep its substitution
+			for k, v := range outer {
+				if _, dup := subst[k]; !dup {
+					subst[k] = v
+				}
+			}
+		}
 		for _, b := range callee.Blocks {
 			for _, ins := range b.Instrs {
-				a.instrMods(li, m, ins, depth+1, append(stack, callee))
+				a.instrModsS(li, m, ins, depth+1, append(stack, callee), subst)
 			}
 		}
 		return
@@ -323,17 +488,15 @@ func (a *Act) contractMods(li *loopInfo, m *modSet, callee *ssa.Function, fc *Fu
 				m.all = true
 				return
 			}
-			for _, lh := range tg.heaps {
+			var exact []Term
+			if depth == 0 && li != nil && tg.exact != nil {
+				exact = a.exactTargets(li, callee, com, tg)
+			}
+			for i, lh := range tg.heaps {
 				hm := m.heap(lh.name, lh.sort)
-				// exact address when the target is a leaf field of a parameter bound to a loop-invariant argument
-				if depth == 0 && li != nil && tg.paramIdx >= 0 && tg.direct && len(tg.heaps) == 1 {
-					args := callArgs(com)
-					if tg.paramIdx < len(args) && !inLoop(li, args[tg.paramIdx]) {
-						if v, ok := a.vals[args[tg.paramIdx]]; ok && v.Loc == nil && v.T != "" {
-							hm.exact = append(hm.exact, v.T)
-							continue
-						}
-					}
+				if exact != nil && i < len(exact) {
+					hm.exact = append(hm.exact, exact[i])
+					continue
 				}
 				hm.unknown = true
 			}
@@ -350,7 +513,7 @@ func callArgs(com *ssa.CallCommon) []ssa.Value {
 func (a *Act) loopHead(li *loopInfo, st *State, preds []edgeState) *State {
 	u := a.u
 	b := li.head
-	mods := a.loopMods(li)
+	mods := a.loopMods(li, st)
 	// 1. invariants on entry
 	invs, decr := a.loopClauses(li)
 	entryEnv := a.loopEnv(li, st, "entry", nil)
@@ -383,6 +546,10 @@ func (a *Act) loopHead(li *loopInfo, st *State, preds []edgeState) *State {
 		li.phiVals[phi] = nv
 		if al := h.allocated(c, phi.Type()); al != "true" {
 			h.assume(al)
+		}
+		if phi.Comment == "rangeindex" {
+			// by construction of go/ssa's range-over-slice loop the hidden index starts at -1 and is incremented
+			h.assume(app(">=", c, "(- 1)"))
 		}
 	}
 	if mods.all {
@@ -506,4 +673,60 @@ func (a *Act) loopClauses(li *loopInfo) (invs []*Clause, decr *Clause) {
 		}
 	}
 	return
+}
+
+// invariantAddr: the value of a pointer expression that does not change in the loop
+// (defined outside, or the address of a struct-typed field of such a pointer).
+func (a *Act) invariantAddr(li *loopInfo, v ssa.Value) (Term, bool) {
+	if !inLoop(li, v) {
+		if x, ok := a.vals[v]; ok && x.Loc == nil && x.T != "" {
+			return x.T, true
+		}
+		if _, isParam := v.(*ssa.Parameter); isParam {
+			x := a.val(v)
+			return x.T, x.T != ""
+		}
+		return "", false
+	}
+	if fa, ok := v.(*ssa.FieldAddr); ok {
+		ft := derefType(fa.Type())
+		if isStructType(ft) || isArrayType(ft) || isOpaqueStruct(ft) {
+			if t, ok := a.invariantAddr(li, fa.X); ok {
+				return app("sub", t, intLit(int64(fa.Field))), true
+			}
+		}
+	}
+	return "", false
+}
+
+// exactTargets evaluates the addresses of a modifies target for a call inside a loop, using only
+// loop-invariant arguments and no heap reads; nil if that is not possible.
+func (a *Act) exactTargets(li *loopInfo, callee *ssa.Function, com *ssa.CallCommon, tg *modTargetInfo) (out []Term) {
+	args := com.Args
+	vals := make([]Val, len(callee.Params))
+	okArg := make([]bool, len(callee.Params))
+	for i := range callee.Params {
+		if i < len(args) {
+			if t, ok := a.invariantAddr(li, args[i]); ok {
+				vals[i] = Val{T: t, Typ: callee.Params[i].Type()}
+				okArg[i] = true
+			}
+		}
+	}
+	probe := &State{u: a.u, guard: "true", heaps: map[string]Term{}, alloc: a.u.alloc0, probe: new(bool)}
+	env := a.fnEnv(callee, vals, nil, probe, probe, nil)
+	inner := env.lookup
+	bad := false
+	env.lookup = func(name string) (SVal, bool) {
+		for i, p := range callee.Params {
+			if p.Name() == name && !okArg[i] {
+				bad = true
+			}
+		}
+		return inner(name)
+	}
+	if err := catch(func() { out = tg.exact(env) }); err != nil || bad || *probe.probe {
+		return nil
+	}
+	return out
 }
